@@ -1019,6 +1019,228 @@ fn check_layout_model(cx: &mut Cx, stmts: &[St], env: &HashMap<String, i64>, pro
 }
 
 // ---------------------------------------------------------------------------------------------------------
+// correspondence with the whole-pipeline model `Trion.Asm.run` (`asm run …`): success/failure, the three
+// results of assemble/close/finalize, every diagnostic's (file, line, col, kind) in order, and the image
+
+fn paren_nums(s: &str) -> Vec<String>
+{
+	// the integers inside the last parenthesis of a message
+	let Some(at) = s.rfind('(') else {return Vec::new()};
+	let mut out = Vec::new();
+	let mut cur = String::new();
+	let mut prev = ' ';
+	for c in s[at..].chars()
+	{
+		if c.is_ascii_digit() || (c == '-' && cur.is_empty() && !prev.is_ascii_alphanumeric()) {cur.push(c);}
+		else
+		{
+			if cur.chars().any(|c| c.is_ascii_digit()) {out.push(cur.clone());}
+			cur.clear();
+		}
+		prev = c;
+	}
+	if cur.chars().any(|c| c.is_ascii_digit()) {out.push(cur);}
+	out
+}
+
+fn hash_num(s: &str) -> i64
+{
+	// the number after '#', minus one (the messages print `idx + 1`)
+	let Some(at) = s.find('#') else {return -1};
+	s[at + 1..].chars().take_while(|c| c.is_ascii_digit()).collect::<String>().parse::<i64>().map(|n| n - 1).unwrap_or(-1)
+}
+
+fn ty_name(s: &str) -> String {s.trim().replace(' ', "_")}
+
+fn realm_of(s: &str) -> &'static str {if s.contains(" global ") {"global"} else {"local"}}
+
+fn seg_kind(parts: &[&str]) -> String
+{
+	let Some(m) = parts.first() else {return "?".to_owned()};
+	if m.starts_with("could not write segment")
+	{
+		let n = parts.get(1).map(|p| paren_nums(p)).unwrap_or_default();
+		format!("write.{}", n.join("."))
+	}
+	else if m.ends_with("is already occupied")
+	{
+		format!("occupied.{}", m.split(' ').nth(1).unwrap_or("").to_lowercase())
+	}
+	else if m.starts_with("segment overflow") {format!("overflow.{}", paren_nums(m).join("."))}
+	else {format!("?{m}")}
+}
+
+fn overflow_kind(m: &str) -> &'static str
+{
+	if m.starts_with("overflow in negative") {"negate"}
+	else if m.starts_with("cannot divide") {"divZero"}
+	else if m.starts_with("cannot modulo") {"modZero"}
+	else if m.contains(" plus ") {"add"}
+	else if m.contains(" minus ") {"sub"}
+	else if m.contains(" times ") {"mul"}
+	else if m.contains(" divided by ") {"div"}
+	else if m.contains(" modulo ") {"mod"}
+	else if m.contains(" left shifted by ") {"shl"}
+	else if m.contains(" right shifted by ") {"shr"}
+	else {"?"}
+}
+
+/// the boxed source of `Apply` / `Assemble`
+fn inner_kind(parts: &[&str]) -> String
+{
+	let Some(m) = parts.first() else {return "?".to_owned()};
+	if m.starts_with("reserved name") {"const.reserved".to_owned()}
+	else if m.starts_with("no such file ") {"include.nosuchfile".to_owned()}
+	else if m.starts_with("no such ") && m.contains(" constant ") {format!("nosuch.{}", realm_of(m))}
+	else if m.starts_with("duplicate constant ") {"constdir.duplicate".to_owned()}
+	else if m.starts_with("duplicate ") {format!("duplicate.{}", realm_of(m))}
+	else if m.starts_with("declared ") {format!("global.deferred.{}", realm_of(m))}
+	else if m.starts_with("label out of range") {format!("const.range.{}", paren_nums(m).join("."))}
+	else if m.starts_with("misaligned label") {format!("const.alignment.{}", paren_nums(m).join("."))}
+	else if m.contains(" not supported for ") {"eval.badtype".to_owned()}
+	else if m.starts_with("arithmetic overflow") {format!("eval.overflow.{}", overflow_kind(parts.get(1).unwrap_or(&"")))}
+	else if m.starts_with("address out of range") {"addr.range".to_owned()}
+	else if m.starts_with("could not change active section") {format!("addr.segment.{}", seg_kind(&parts[1..]))}
+	else if m.starts_with("no active segment to align") {"align.inactive".to_owned()}
+	else if m.starts_with("alignment out of range") {format!("align.range.{}", paren_nums(m).join("."))}
+	else if m.starts_with("could not write alignment bytes") {format!("align.write.{}", seg_kind(&parts[1..]))}
+	else if m.starts_with("no active segment to write to") {"data.inactive".to_owned()}
+	else if m.starts_with("constant out of range") {let n = paren_nums(m); format!("data.range.{}", n[1..].join("."))}
+	else if m.starts_with("invalid hex char") {format!("data.hexchar.{}", m.rsplit(' ').next().unwrap_or(""))}
+	else if m.starts_with("unexpected eof in hex string") {"data.hexeof".to_owned()}
+	else if m.starts_with("could not access referenced file") {"data.file".to_owned()}
+	else if m.starts_with("could not write data to segment") {format!("data.write.{}", seg_kind(&parts[1..]))}
+	else if m.starts_with("could not read file") {"include.fileread".to_owned()}
+	else if m.starts_with("assembly of ") {"include.failed".to_owned()}
+	else if m.starts_with("argument #") && m.ends_with("is out of range") {format!("asm.valuerange.{}", hash_num(m))}
+	else if m.starts_with("argument #") && m.contains("has invalid register") {format!("asm.nosuchreg.{}", hash_num(m))}
+	else if m.starts_with("could not encode instruction")
+	{
+		if parts.get(1).is_some_and(|p| p.contains("cannot be represented")) {"asm.encode.unrep".to_owned()} else {"asm.encode.overflow".to_owned()}
+	}
+	else if m.starts_with("could not write instruction to segment") {format!("asm.write.{}", seg_kind(&parts[1..]))}
+	else {format!("?{m}")}
+}
+
+fn lex_kind(m: &str) -> String
+{
+	if m.starts_with("malformed UTF-8") {"bu".to_owned()}
+	else if m.starts_with("unclosed block comment") {"bc".to_owned()}
+	else if m.starts_with("malformed number") {"bn".to_owned()}
+	else if m.starts_with("malformed character") {"bh".to_owned()}
+	else if m.starts_with("malformed string") {"bs".to_owned()}
+	else if let Some(rest) = m.strip_prefix("unexpected character ")
+	{
+		// `{c:?}`: 'x', '\n', '\'', '\\', '\u{7f}'
+		// the source is a `Positioned<TokenErrorKind>`: "… 'x' (line:col)"
+		let rest = rest.rfind(" (").map(|i| &rest[..i]).unwrap_or(rest);
+		let body = rest.trim().strip_prefix('\'').unwrap_or(rest);
+		let body = body.strip_suffix('\'').unwrap_or(body);
+		let c = if let Some(h) = body.strip_prefix("\\u{") {u32::from_str_radix(h.trim_end_matches('}'), 16).unwrap_or(0)}
+			else if let Some(e) = body.strip_prefix('\\')
+			{
+				match e {"n" => 10, "r" => 13, "t" => 9, "0" => 0, "'" => 39, "\"" => 34, "\\" => 92, _ => 0}
+			}
+			else {body.chars().next().map(|c| c as u32).unwrap_or(0)};
+		format!("ux{c}")
+	}
+	else {format!("?{m}")}
+}
+
+/// the kind of a diagnostic from its rendered message chain `top <- source <- …` (same kinds as `Driver/Asm.lean`)
+fn diag_kind(msg: &str) -> String
+{
+	let parts: Vec<&str> = msg.split(" <- ").collect();
+	let m = parts[0];
+	let quoted_dir = |m: &str| -> String
+	{
+		let a = m.find("\".").map(|i| i + 2).unwrap_or(0);
+		let b = m[a..].find('"').map(|i| i + a).unwrap_or(m.len());
+		m[a..b].to_owned()
+	};
+	if m == "parsing failed"
+	{
+		match parts.get(1)
+		{
+			Some(&"input token error") => format!("parse.tok.{}", lex_kind(parts.get(2).unwrap_or(&""))),
+			Some(p) if p.starts_with("expected ") =>
+			{
+				let rest = &p["expected ".len()..];
+				let (e, h) = rest.split_once(", got ").unwrap_or((rest, ""));
+				format!("parse.exp.{}.{}", hex(e.as_bytes()), hex(h.as_bytes()))
+			},
+			_ => "parse.?".to_owned(),
+		}
+	}
+	else if m == "no active segment" {"inactive".to_owned()}
+	else if m.starts_with("no such directive") {"dir.notfound".to_owned()}
+	else if m.starts_with("too many arguments for \".") {format!("dir.toomany.{}.{}", quoted_dir(m), paren_nums(m).join("."))}
+	else if m.starts_with("not enough arguments for\".") {format!("dir.notenough.{}.{}", quoted_dir(m), paren_nums(m).join("."))}
+	else if m.starts_with("invalid argument #") && m.contains(" to \".")
+	{
+		let inside = &m[m.rfind('(').map(|i| i + 1).unwrap_or(0)..m.len() - 1];
+		let (e, h) = inside.split_once(", got ").unwrap_or((inside, ""));
+		format!("dir.argtype.{}.{}.{}.{}", quoted_dir(m), hash_num(m), ty_name(e.trim_start_matches("expect ")), ty_name(h))
+	}
+	else if let Some(d) = m.strip_prefix("failed to apply .") {format!("dir.apply.{}.{}", d, inner_kind(&parts[1..]))}
+	else if m.starts_with("no such instruction") {"instr.notfound".to_owned()}
+	else if m.starts_with("too many arguments for ") {format!("instr.toomany.{}", paren_nums(m).join("."))}
+	else if m.starts_with("not enough arguments for ") {format!("instr.notenough.{}", paren_nums(m).join("."))}
+	else if m.starts_with("invalid argument #")
+	{
+		let inside = &m[m.rfind('(').map(|i| i + 1).unwrap_or(0)..m.len() - 1];
+		let (e, h) = if inside.contains("; got ") {inside.split_once("; got ").unwrap()} else {inside.split_once(", got ").unwrap_or((inside, ""))};
+		let e = e.trim_start_matches("expect one of {").trim_start_matches("expect ").trim_end_matches('}');
+		let es: Vec<String> = e.split(", ").map(ty_name).collect();
+		format!("instr.argtype.{}.{}.{}", hash_num(m), es.join("+"), ty_name(h))
+	}
+	else if m == "instruction assembly failed" {format!("instr.asm.{}", inner_kind(&parts[1..]))}
+	else {format!("label.{}", inner_kind(&parts))}
+}
+
+fn canon_real(o: &Outcome, dir: &std::path::Path) -> String
+{
+	let prefix = format!("{}/", dir.display());
+	let success = o.close_err.is_none() && o.finalize;
+	let close = match &o.close_err
+	{
+		None => "-".to_owned(),
+		Some(c) => {let parts: Vec<&str> = c.split(" <- ").collect(); seg_kind(&parts)},
+	};
+	let diags: Vec<String> = o.errors.iter().map(|(f, l, c, m)|
+	{
+		let rel = f.strip_prefix(&prefix).unwrap_or(f);
+		format!("{}:{l}:{c}:{}", hex(rel.as_bytes()), diag_kind(m))
+	}).collect();
+	format!("{} a={} c={} f={} | {} | {}", if success {"ok"} else {"fail"}, o.assemble_ok as u8, close, o.finalize as u8,
+		if diags.is_empty() {"-".to_owned()} else {diags.join(",")}, image_str(&o.image))
+}
+
+/// upper bound on what is sent to the model (its byte lists make huge paddings slow)
+const MODEL_MAX_IMAGE: usize = 1 << 16;
+
+/// `model.asm.run`: the project as it is in `dir` (already written) through the real pipeline and through `Trion.Asm.run`
+fn check_asm_model(cx: &mut Cx, project: &Project, dir: &std::path::Path)
+{
+	let real = match run_real(dir)
+	{
+		Err(_) => "panic".to_owned(),
+		Ok(o) =>
+		{
+			if o.image.len() > MODEL_MAX_IMAGE {cx.report.hit("asm model: skipped (image > 64 KiB)"); return;}
+			if o.errors.iter().any(|e| e.3.contains("could not read file")) {cx.report.hit("asm model: skipped (unreadable file)"); return;}
+			canon_real(&o, dir)
+		},
+	};
+	let total: usize = project.files.iter().map(|f| f.1.len()).sum();
+	if total > 200_000 {cx.report.hit("asm model: skipped (project > 200 kB)"); return;}
+	let req = format!("asm run {}", project.files.iter().map(|(n, d)| format!("{n}={}", if d.is_empty() {"-".to_owned()} else {hex(d)})).collect::<Vec<_>>().join(" "));
+	let model = cx.model.ask(&req);
+	cx.report.hit(&format!("asm model: {}", model.split(' ').next().unwrap_or("")));
+	if model != real {cx.report.disagree("model.asm.run", project.to_input(), model, real);}
+}
+
+// ---------------------------------------------------------------------------------------------------------
 // C05
 
 fn check_c05(cx: &mut Cx, gen: &Generated, dir: &std::path::Path)
@@ -1232,6 +1454,7 @@ fn check_c06(cx: &mut Cx, project: &Project, expect: Expect, class: &str, dir: &
 			}
 		},
 	}
+	check_asm_model(cx, project, dir);
 }
 
 fn mutate(rng: &mut Rng, data: &mut Vec<u8>)
@@ -1352,6 +1575,7 @@ pub fn run(id: &str, cx: &mut Cx)
 						Err(e) => cx.report.oracle_fail(input, format!("panic: {e}")),
 						Ok(o) => cx.report.notes.push(format!("outcome: ok={} errors={:?} image={}", o.finalize, o.errors, image_str(&o.image))),
 					}
+					check_asm_model(cx, &p, &dir);
 				}
 				else {check_c06(cx, &p, Expect::Any, "replay", &dir);}
 			},
@@ -1379,6 +1603,8 @@ non-trivial = non-empty image; distinct = distinct images".to_owned();
 				if made <= 3 {cx.report.sample(String::from_utf8_lossy(&gen.project.files[0].1).chars().take(400).collect::<String>());}
 				check_c05(cx, &gen, &dir);
 				check_layout_model(cx, &gen.stmts, &gen.env, &gen.project, &dir, Some(&gen.image));
+				gen.project.write(&dir);
+				check_asm_model(cx, &gen.project, &dir);
 				if made % 3 == 0
 				{
 					// damaged variants: only model vs implementation (success/failure and image), no reference
@@ -1398,6 +1624,7 @@ non-trivial = non-empty image; distinct = distinct images".to_owned();
 						all.extend(files);
 						let p = Project{files: all};
 						check_layout_model(cx, &st, &denv, &p, &dir, None);
+						check_asm_model(cx, &p, &dir);
 						cx.report.cases(1);
 					}
 				}
